@@ -126,4 +126,61 @@ example : IsBest none [⟨0, 0, 100, 0, 400⟩, ⟨1, 5, 90, 20, 400⟩] ⟨0, 0
   simp at ht
   rcases ht with rfl | rfl <;> decide
 
+/-! ### frames of an animation are recompressed in parallel (`recompress_frames`, `try_for_each`) -/
+
+/-- what processing one frame yields: `none` = its data does not decode (an error), `some none` = kept
+    as it is, `some (some d)` = replaced by the smaller stream `d` -/
+abbrev FrameJob := Option (Option Bytes)
+
+/-- an execution of the parallel `try_for_each`: the set of frames that were processed. Either every
+    frame was, or the loop was cut short - which only an error among the processed ones does. -/
+def ValidFrameRun (jobs : List FrameJob) (processed : List Nat) : Prop :=
+  (∀ i, i < jobs.length → i ∈ processed) ∨ (∃ i ∈ processed, jobs[i]? = some none)
+
+/-- what the call returns: an error if a processed frame failed, else the frames' results -/
+def frameRunOutcome (jobs : List FrameJob) (processed : List Nat) : Option (List (Option Bytes)) :=
+  if processed.any (fun i => jobs[i]? == some none) then none
+  else some (jobs.map fun j => j.getD none)
+
+/-- **The outcome of the parallel frame recompression does not depend on the schedule**: whichever
+    frames the workers got to before an error stopped the loop, the call returns an error exactly
+    when some frame does not decode, and otherwise the same list of results (each frame's own).
+    (A version that swallowed the error would return the half-updated list, which is not a function of
+    the input - that is the seeded change C06g.) -/
+theorem frames_schedule_independent (jobs : List FrameJob) (p q : List Nat)
+    (hp : ValidFrameRun jobs p) (hq : ValidFrameRun jobs q) :
+    frameRunOutcome jobs p = frameRunOutcome jobs q := by
+  have key : ∀ r, ValidFrameRun jobs r →
+      frameRunOutcome jobs r = if jobs.any (· == none) then none else some (jobs.map fun j => j.getD none) := by
+    intro r hr
+    unfold frameRunOutcome
+    by_cases hbad : jobs.any (· == none) = true
+    · rw [if_pos hbad]
+      have : r.any (fun i => jobs[i]? == some none) = true := by
+        rcases hr with hall | ⟨i, hi, hfail⟩
+        · obtain ⟨j, hj, hjn⟩ := List.any_eq_true.mp hbad
+          obtain ⟨k, hk, hkj⟩ := List.getElem_of_mem hj
+          apply List.any_eq_true.mpr
+          refine ⟨k, hall k hk, ?_⟩
+          rw [List.getElem?_eq_getElem hk, hkj]
+          simpa using hjn
+        · exact List.any_eq_true.mpr ⟨i, hi, by rw [hfail]; simp⟩
+      rw [if_pos this]
+    · rw [if_neg hbad]
+      have : ¬ (r.any (fun i => jobs[i]? == some none) = true) := by
+        intro h
+        obtain ⟨i, _, hfail⟩ := List.any_eq_true.mp h
+        have hfail' : jobs[i]? = some none := by simpa using hfail
+        have hmem : (none : FrameJob) ∈ jobs := List.mem_of_getElem? hfail'
+        exact hbad (List.any_eq_true.mpr ⟨none, hmem, by simp⟩)
+      rw [if_neg this]
+  rw [key p hp, key q hq]
+
+/-- Non-vacuity: three frames, the middle one damaged - processing only the first two (one thread) and
+    processing all three are both valid runs, and both return the error. -/
+example : ValidFrameRun [some none, none, some (some [1])] [0, 1] ∧
+    ValidFrameRun [some none, none, some (some [1])] [2, 0, 1] ∧
+    frameRunOutcome [some none, none, some (some [1])] [0, 1] = none := by
+  refine ⟨Or.inr ⟨1, by simp, rfl⟩, Or.inr ⟨1, by simp, rfl⟩, by decide⟩
+
 end OxiModel.C06
